@@ -396,12 +396,22 @@ pub mod body {
         /// number of polls that happened after the body had returned `None`
         pub polls_after_end: Arc<AtomicUsize>,
         ended: bool,
+        /// an "accurate" body: `is_end_stream()` is true as soon as the script is exhausted (as
+        /// http_body_util::Full or an h2 body whose last DATA frame carried END_STREAM answer),
+        /// instead of the trait's default `false`
+        eager_eos: bool,
+    }
+    static EAGER_EOS: std::sync::atomic::AtomicBool = std::sync::atomic::AtomicBool::new(false);
+    /// bodies created from now on report `is_end_stream()` accurately (true) / by default (false);
+    /// a consumer must behave the same either way - harnesses alternate the mode between cases
+    pub fn set_eager_eos(on: bool) {
+        EAGER_EOS.store(on, Ordering::SeqCst);
     }
     impl<E> ScriptBody<E> {
         pub fn new(evs: Vec<Ev<E>>) -> (Self, Arc<AtomicUsize>) {
             let c = Arc::new(AtomicUsize::new(0));
             (
-                ScriptBody { evs: evs.into(), polls_after_end: c.clone(), ended: false },
+                ScriptBody { evs: evs.into(), polls_after_end: c.clone(), ended: false, eager_eos: EAGER_EOS.load(Ordering::SeqCst) },
                 c,
             )
         }
@@ -430,6 +440,9 @@ pub mod body {
                     Poll::Ready(None)
                 }
             }
+        }
+        fn is_end_stream(&self) -> bool {
+            self.eager_eos && self.evs.is_empty()
         }
     }
 
